@@ -528,6 +528,16 @@ def worker(payload):
     for kx, v in stats.items():
         out["hist"]["layer I: " + kx] = v
     out["hist"]["layer I: states the model calls unsafe (all in the D34 window)"] = len(unsafe)
+    # correspondence with the Lean model of a function and its linked variant (layer T)
+    import corr_t
+
+    tstats, tdiffs, tunsafe = corr_t.run(seed + 2, max(4, n // 3))
+    out["corr"].extend(tdiffs[:3])
+    for kx, v in tstats.items():
+        out["hist"]["layer T: " + kx] = v
+    if tunsafe:
+        # C18_tree proves there is none: a model state the driver calls unsafe contradicts the theorem
+        out["corr"].append({"layer": "T", "what": "the driver reports an unsafe model state although C18_tree excludes it", "detail": tunsafe[0]})
     if opts.get("sweep"):
         # thorough tier: for a few scenarios, EVERY executed library line of first-use build, rebuild and cache-miss
         # resolution is a failure point
